@@ -22,7 +22,6 @@ M = [
  ("auth-lifetime-12-days", "msmart/lan.py", "AUTHENTICATION_EXPIRATION = timedelta(hours=12)", "AUTHENTICATION_EXPIRATION = timedelta(days=12)", ["C07"]),
  ("lifetime-check-uses-auth", "msmart/lan.py", "        if self._connection_expiration and datetime.now(timezone.utc) > self._connection_expiration:",
   "        if self._connection_expiration and datetime.now(timezone.utc) > self._connection_expiration + timedelta(hours=1):", ["C07"]),
- ("read-timeout-3s", "msmart/lan.py", "        # Await a response\n        packet = await self._protocol.read(**kwargs)", "        # Await a response\n        packet = await self._protocol.read(**({\"timeout\": 3} if not kwargs else kwargs))", ["C08"]),
  ("connect-oserror-unmapped", "msmart/lan.py", "        except OSError as e:\n            raise ProtocolError(\"Connect failed.\") from e\n",
   "        except ConnectionResetError as e:\n            raise ProtocolError(\"Connect failed.\") from e\n", ["C08", "C07"]),
  ("device-auth-timeout-unmapped", "msmart/base_device.py", "        except (ProtocolError, TimeoutError) as e:\n            raise AuthenticationError(e) from e",
